@@ -142,11 +142,16 @@ class AnsiDecoder:
         _Style = Style
         text = Text()
         append = text.append
-        # text up to a carriage return is overwritten by what follows - unless nothing does (CR LF line ending)
-        line = line.rstrip("\r").rsplit("\r", 1)[-1]
+        # text up to a carriage return is overwritten by what follows - unless nothing does (CR LF line ending);
+        # the escape sequences before it still take effect
+        line = line.rstrip("\r")
         for token in _ansi_tokenize(line):
             plain_text, sgr, osc = token
             if plain_text:
+                if "\r" in plain_text:
+                    text = Text()
+                    append = text.append
+                    plain_text = plain_text.rsplit("\r", 1)[-1]
                 append(plain_text, self.style or None)
             elif osc:
                 if osc.startswith("8;"):
